@@ -1584,8 +1584,10 @@ func (gen *Generator) GeneratePackage(expressions []Sexp) error {
 		}
 	}
 
-	gen.Tail = oldtail
+	// the value of the form is the package, not the value of its last
+	// expression: nothing in the body is in tail position.
 	err := gen.Generate(expressions[size-1])
+	gen.Tail = oldtail
 	if err != nil {
 		return err
 	}
